@@ -322,6 +322,11 @@ void Search::iter_search()
 
         if (elapsed >= 3 * (_search_time / 4)) break;
     }
+
+    // search was interrupted before the first iteration was completed,
+    // fall back to the first (best ordered) root move
+    if (_best_move == NO_MOVE && !_root_moves.empty())
+        _best_move = _root_moves[0];
 }
 
 Value Search::search(Position& position, Depth depth, Value alpha, Value beta,
